@@ -299,6 +299,57 @@ fn rayon_case(rng: &mut Rng) -> (String, String) {
     (case, verdict)
 }
 
+/// a scripted double-ended iterator, not necessarily fused: `next` answers from the front script, `next_back` from the back
+/// script, an exhausted script answers `None` (model: `IterWrap.scriptUnder`)
+#[derive(Clone)]
+struct Scripted { front: std::collections::VecDeque<Option<usize>>, back: std::collections::VecDeque<Option<usize>> }
+impl Iterator for Scripted {
+    type Item = usize;
+    fn next(&mut self) -> Option<usize> { self.front.pop_front().flatten() }
+    fn size_hint(&self) -> (usize, Option<usize>) { (self.front.len(), Some(self.front.len() + self.back.len())) }
+}
+impl DoubleEndedIterator for Scripted { fn next_back(&mut self) -> Option<usize> { self.back.pop_front().flatten() } }
+
+/// C17I: a fixed sequence of `next` / `next_back` / `size_hint` calls on a wrapped scripted iterator; observation = every answer
+/// with the bar's position and finished flag after it (compared with the Lean model `IterWrap.trace`), oracle = same answers as
+/// the bare iterator, position = items handed out until the first `None`, finished exactly from the first `None` on
+pub fn run_iter_model(seed: u64, tier: &str, out: &mut Out) {
+    let mut rng = Rng::new(seed ^ 0x17E2);
+    let n = if tier == "thorough" { 100_000 } else { 3_000 };
+    for _ in 0..n {
+        let script = |rng: &mut Rng| -> std::collections::VecDeque<Option<usize>> { (0..rng.below(7)).map(|_| if rng.chance(1, 6) { None } else { Some(rng.below(50) as usize) }).collect() };
+        let (front, back) = (script(&mut rng), script(&mut rng));
+        let len: Option<u64> = match rng.below(4) { 0 => None, 1 => Some(0), 2 => Some(front.len() as u64), _ => Some(rng.below(30)) };
+        let fin = rng.below(5);
+        let finish = match fin { 0 => ProgressFinish::AndLeave, 1 => ProgressFinish::AndClear, 2 => ProgressFinish::WithMessage("done".into()), 3 => ProgressFinish::Abandon, _ => ProgressFinish::AbandonWithMessage("stop".into()) };
+        let moves = fin <= 2;
+        let pos0: u64 = *rng.pick(&[0u64, 0, 0, 3, u64::MAX - 1, u64::MAX]);
+        let calls: Vec<char> = (0..rng.below(16)).map(|_| *rng.pick(&['n', 'n', 'n', 'b', 'b', 's'])).collect();
+        let fmt = |s: &std::collections::VecDeque<Option<usize>>| if s.is_empty() { "-".to_string() } else { s.iter().map(|x| x.map_or("_".to_string(), |v| v.to_string())).collect::<Vec<_>>().join(",") };
+        let case = format!("ITERW {} {} {pos0} {} {} {}", len.map_or("none".to_string(), |l| l.to_string()), moves as u8, fmt(&front), fmt(&back),
+            if calls.is_empty() { "-".to_string() } else { calls.iter().map(|c| c.to_string()).collect::<Vec<_>>().join(",") });
+        let pb = match len { Some(l) => ProgressBar::with_draw_target(Some(l), ProgressDrawTarget::hidden()), None => ProgressBar::with_draw_target(None, ProgressDrawTarget::hidden()) }.with_finish(finish).with_position(pos0);
+        let mut bare = Scripted { front: front.clone(), back: back.clone() };
+        let mut w = pb.wrap_iter(Scripted { front, back });
+        let (mut obs, mut verdict) = (Vec::new(), String::from("ok"));
+        let (mut items, mut ended) = (0u64, false);
+        for (i, c) in calls.iter().enumerate() {
+            let (a, b) = match c {
+                'n' => (w.next().map_or("none".to_string(), |v| format!("some:{v}")), bare.next().map_or("none".to_string(), |v| format!("some:{v}"))),
+                'b' => (w.next_back().map_or("none".to_string(), |v| format!("some:{v}")), bare.next_back().map_or("none".to_string(), |v| format!("some:{v}"))),
+                _ => { let f = |h: (usize, Option<usize>)| format!("hint:{}:{}", h.0, h.1.map_or("none".to_string(), |x| x.to_string())); (f(Iterator::size_hint(&w)), f(Iterator::size_hint(&bare))) }
+            };
+            if a != b && verdict == "ok" { verdict = format!("FAIL not-transparent call {i} ({c}): wrapped {a}, bare {b}"); }
+            if a.starts_with("some") && !ended { items += 1; }
+            if a == "none" { ended = true; }
+            if !ended && pb.position() != pos0.wrapping_add(items) && verdict == "ok" { verdict = format!("FAIL miscount call {i}: position {} after {items} items from {pos0}", pb.position()); }
+            if pb.is_finished() != ended && verdict == "ok" { verdict = format!("FAIL finish call {i}: finished={} but end-of-iteration seen={ended}", pb.is_finished()); }
+            obs.push(format!("{a}@{}:{}", pb.position(), pb.is_finished() as u8));
+        }
+        out.emit(&case, &format!("{} ORACLE {verdict}", obs.join(" ")));
+    }
+}
+
 pub fn run(seed: u64, tier: &str, out: &mut Out) {
     let mut rng = Rng::new(seed);
     let n = if tier == "thorough" { 200_000 } else { 4_000 };
